@@ -346,6 +346,8 @@ func checkC02(c *Ctx) {
 	c02SameType(c)
 	c02ErrCarry(c)
 	c02AnyMembers(c)
+	// listings are built per request: a filter working in place must not reach the registry's own slice (shared with C13)
+	c13Filters(c)
 	// a frame into which another writer's bytes were interleaved is not what the handler returned: the stream-integrity
 	// rules of C09 (one mutex per shared stream, one critical section per frame) are necessary here too
 	expl, nd, as := c.R.Explanation, c.R.NotDecided, c.R.Assumptions
